@@ -111,6 +111,9 @@ def plan(tier, seed):
         (corner("unit", prefix=XYI, qubits=3, name="xy-inplane-field"), SHORT, d),
         (corner("real", prefix=A.GG, qubits=2, name="real-two-globals", rydberg_level=100), A.render(l=None, g2="h"), d),
         (corner("unit8", prefix=A.DG, qubits=3, name="unit8-dmm-first"), A.render(l="r", dmm="dmm_0", eom=False), d),
+        # four atoms, two of them masked and two not (pairs masked-masked, masked-unmasked and unmasked-unmasked all exist)
+        (corner("unit", prefix=[("magfield", 1.0, 2.0, 0.5), ("slm", ["q1", "q3"]), ("declare", "m", "mw_global")],
+                coords={"q0": [0.0, 0.0], "q1": [8.0, 0.0], "q2": [3.0, 9.0], "q3": [-6.0, 5.0]}, name="xy-four-atoms-two-masked"), SHORT, d),
         # Ising mode with an SLM mask (realised by a DMM): the van der Waals term stays on whatever the mask leaves unmasked
         (corner("unit8", prefix=[("slm", ["q0"]), ("declare", "g", "rydberg_global")], qubits=2, name="ising-slm-one-unmasked"),
          A.render(l=None, eom=False), d + 1),
